@@ -218,6 +218,12 @@ def build_class(cs, base, modname="verif_synth"):
     if api in ("attr.s", "define", "frozen"):
         anns = {}
         for f in fields:
+            if f.get("bare") and f.get("annotated") and f.get("type"):
+                # a bare annotation (`x: int` / `x: int = value`), no field() object
+                anns[f["name"]] = TYPES[f["type"]]
+                if f["default"] == "value":
+                    ns[f["name"]] = f"{_TAG[0]}dflt.{f['name']}"
+                continue
             ns[f["name"]] = _field_obj(f, next_gen)
             if f.get("annotated") and f.get("type"):
                 anns[f["name"]] = TYPES[f["type"]]
@@ -590,6 +596,12 @@ def gen_hspec(rng, depth=None, frozen=None, allow_exc=True, allow_plain=True):
         if is_leaf and rng.random() < 0.1:
             cs["init"] = False       # the initializer is then provided as __attrs_init__
         names = rng.sample(pool, nf)
+        # re-declaring an ancestor's field name is where collection, slots and defaults interact
+        anc = [f["name"] for k in classes if k["kind"] == "attrs" for f in k.get("fields", [])]
+        if anc and names and rng.random() < 0.35:
+            n0 = rng.choice(anc)
+            if n0 not in names:
+                names[rng.randrange(len(names))] = n0
         if "_p" in names and "p" not in names and rng.random() < 0.3:
             names.append("p")
         annotated = api in ("define", "frozen") and rng.random() < 0.5
@@ -598,6 +610,9 @@ def gen_hspec(rng, depth=None, frozen=None, allow_exc=True, allow_plain=True):
             if annotated:
                 f["annotated"] = True
                 f["type"] = f["type"] or "int"
+                if (f["converter"] is None and f["validators"] == 0 and f["on_setattr"] == "unset" and f["alias"] is None
+                        and f["init"] and not f["kw_only"] and f["default"] in ("none", "value") and rng.random() < 0.6):
+                    f["bare"] = True
             elif api in ("define", "frozen") and f.get("type"):
                 f["annotated"] = False
             cs["fields"].append(f)
@@ -682,6 +697,11 @@ def gen_hspec(rng, depth=None, frozen=None, allow_exc=True, allow_plain=True):
         if leaf_frozen(sub):
             for f in ordered:
                 f["on_setattr"] = "unset"
+    # a bare annotation cannot say init=False / kw_only: fields the repairs above changed get a field() object
+    for cs in classes:
+        for f in cs.get("fields", []):
+            if f.get("bare") and (not f.get("init", True) or f.get("kw_only")):
+                f.pop("bare")
     return h
 
 
